@@ -11,6 +11,9 @@ import (
 	"strconv"
 	"strings"
 
+	"github.com/confluentinc/confluent-kafka-go/kafka"
+
+	"github.com/digitalocean/firebolt"
 	"github.com/digitalocean/firebolt/fbcontext"
 	"github.com/digitalocean/firebolt/node/kafkaconsumer"
 )
@@ -166,7 +169,18 @@ func fmtBcasts(ms []fbcontext.Message) string {
 func execTracker(input string) string {
 	m := consumerMetrics()
 	ctx := &recordingContext{}
-	a, _ := kafkaconsumer.NewRecoveryTracker(m, ctx)
+	// every instance is a Kafka source with its recovery consumer; messages reach the tracker through the source's Receive,
+	// whatever the instance owns at that moment (here: nothing, or partitions 0 and 2)
+	topic := "t"
+	newInstance := func(c *recordingContext, owner bool) (*kafkaconsumer.KafkaConsumer, *kafkaconsumer.RecoveryTracker) {
+		sendCh := make(chan firebolt.Event, 16)
+		rc := kafkaconsumer.VerifNewRecoveryConsumer(newScriptedConsumer(), topic, sendCh, 1000000, 1000, m, c, true)
+		if owner {
+			rc.SetAssignedPartitions([]kafka.TopicPartition{{Topic: &topic, Partition: 0}, {Topic: &topic, Partition: 2}})
+		}
+		return kafkaconsumer.VerifNewKafkaConsumer(newScriptedConsumer(), topic, sendCh, 0, m, rc, c), rc.VerifTracker()
+	}
+	kcA, a := newInstance(ctx, len(input)%2 == 0)
 	var outs []string
 	for _, seg := range strings.Split(input, ";") {
 		f := strings.Fields(seg)
@@ -203,19 +217,19 @@ func execTracker(input string) string {
 			if f[1] != "x" {
 				p = int32(pi(1))
 			}
-			a.VerifReceive(f[1], encodeReqs(p, f[2]))
+			_ = kcA.Receive(fbcontext.Message{MessageType: "recoveryrequest", Key: f[1], Payload: encodeReqs(p, f[2])})
 			outs = append(outs, ".")
 		case "recvbad":
-			a.VerifReceive(f[1], []byte("{not json"))
+			_ = kcA.Receive(fbcontext.Message{MessageType: "recoveryrequest", Key: f[1], Payload: []byte("{not json")})
 			outs = append(outs, ".")
 		default:
 			return "bad-input"
 		}
 	}
-	ball, _ := kafkaconsumer.NewRecoveryTracker(m, &recordingContext{})
-	blast, _ := kafkaconsumer.NewRecoveryTracker(m, &recordingContext{})
+	kcAll, ball := newInstance(&recordingContext{}, len(input)%3 == 0)
+	kcLast, blast := newInstance(&recordingContext{}, len(input)%3 == 1)
 	for _, msg := range ctx.sent {
-		ball.VerifReceive(msg.Key, msg.Payload)
+		_ = kcAll.Receive(msg)
 	}
 	lastIdx := map[string]int{}
 	for i, msg := range ctx.sent {
@@ -223,7 +237,7 @@ func execTracker(input string) string {
 	}
 	for i, msg := range ctx.sent {
 		if lastIdx[msg.Key] == i {
-			blast.VerifReceive(msg.Key, msg.Payload)
+			_ = kcLast.Receive(msg)
 		}
 	}
 	return strings.Join(outs, " ; ") + fmt.Sprintf(" # A=%s Ball=%s Blast=%s", trackerState(a), trackerState(ball), trackerState(blast))
